@@ -8,7 +8,7 @@ TECHNIQUE = 'bounded-exhaustive enumeration of the documented grammar (every sta
 ASSUMPTIONS = ['generator derived from docs/syntax.md production by production, nesting depth <=2 (thorough 3)', 'corruption = delete / duplicate / replace one token by each of 23 tokens']
 
 ATOMS = ['x', 'y2', '1', '2.5', '.5', '5.', '1e3', '3u', '"s"', "'q'", '"""t"""', 'true', 'false', 'null', '[]', '[1, x]', '{a: 1}', '{a: x, b: "s"}', '{}', 'r.a', 'r.a.b', 'l[0]', 'l[x][1]',
-         'F(x)', 'F()', 'G(x, k: 2)', 'G(k:)', '-x', '!b', 'P', 'nil', 'F(..r)', '(x)', '{a:, b:}', '"a\\"b"', "x_1y", '`t.u`(x)', 'a.b.C(x)', 'then_v', 'else_v', 'limit_value', 'x_in', 'is_y', 'distinct_z', 'if_x', 'combine_x', 'in_list']
+         'F(x)', 'F()', 'G(x, k: 2)', 'G(k:)', '-x', '!b', 'P', 'nil', 'F(..r)', '(x)', '{a:, b:}', '"a\\"b"', "x_1y", '`t.u`(x)', 'a.b.C(x)', '{a: 1, ..r}', '{..r}', '{s? += y}', '{a: 1, s? Max= y}', '"\\"', '"x\\("', '"C:\\d\\"', '"\\)"', "'\\\\'", 'then_v', 'else_v', 'limit_value', 'x_in', 'is_y', 'distinct_z', 'if_x', 'combine_x', 'in_list']
 BINOPS = ['||', '&&', '->', '==', '<=', '>=', '<', '>', '!=', '=', ' in ', ' is not ', ' is ', '++?', '++', '+', '-', '*', '/', '%', '^']
 CORRUPT = ['(', ')', '[', ']', '{', '}', ',', ';', ':', ':-', '|', '~', '=', '"', "'", '#', '/*', '?', '.', '-', 'x', 'in', 'distinct']
 
